@@ -611,6 +611,7 @@ class TorConfig:
             HiddenServiceDirGroupReadable=False
         )
         self._defaults = dict()
+        self._saves_in_flight = []
 
         self.post_bootstrap = defer.Deferred()
         if self.protocol:
@@ -994,25 +995,31 @@ class TorConfig:
             # next save() instead of being forgotten on completion
             sent = self.unsaved
             self.__dict__['unsaved'] = {}
+            self._saves_in_flight.append(sent)
             d = self.protocol.set_conf(*args)
             d.addCallbacks(self._save_completed, self._save_failed,
-                           errbackArgs=(sent,))
+                           callbackArgs=(sent,), errbackArgs=(sent,))
             return d
 
         else:
             self._save_completed()
             return defer.succeed(self)
 
-    def _save_completed(self, *args):
+    def _save_completed(self, result=None, sent=None):
         '''internal callback'''
         if not self.protocol:
             self.__dict__['unsaved'] = {}
+        self._saves_in_flight[:] = [x for x in self._saves_in_flight if x is not sent]
         return self
 
     def _save_failed(self, fail, sent):
         '''internal errback: Tor refused, so those changes are still pending'''
+        self._saves_in_flight[:] = [x for x in self._saves_in_flight if x is not sent]
         for k, v in sent.items():
-            self.unsaved.setdefault(k, v)
+            # ...unless something newer was set meanwhile, or is
+            # already on its way to Tor in a later save()
+            if not any(k in later for later in self._saves_in_flight):
+                self.unsaved.setdefault(k, v)
         return fail
 
     def _find_real_name(self, name):
